@@ -111,6 +111,16 @@ func facts(f *hc.Facts) {
 	tee := strings.Contains(small, "r:=io.TeeReader(upload.from,h)") && strings.Contains(small, "io.ReadFull(r,buf.Buf)") && !strings.Contains(small, "h.Write(")
 	perAttempt := !strings.Contains(small, "io.TeeReader(") && strings.Contains(small, "io.ReadFull(upload.from,buf.Buf)") && strings.Contains(small, "for{if_,err:=h.Write(read)")
 	tri("md5ViaTeeReader", tee, perAttempt, "smallLoop: io.TeeReader(upload.from, h) + io.ReadFull(r, …) / h.Write(read) inside the retry loop")
+	// both loops cut the source with io.ReadFull into part-size buffers; a short read is the last part,
+	// io.EOF ends the loop without a part
+	rf := func(src string) bool {
+		return strings.Contains(src, "n,err:=io.ReadFull(r,buf.Buf)") &&
+			strings.Contains(src, "caseerrors.Is(err,io.ErrUnexpectedEOF):last=true") &&
+			strings.Contains(src, "caseerrors.Is(err,io.EOF):")
+	}
+	tri("readFullLoops", rf(small) && rf(bigL) && strings.Contains(small, "upload.pool.GetSize(upload.partSize)") &&
+		strings.Contains(bigL, "upload.pool.GetSize(upload.partSize)"), false,
+		"smallLoop/bigLoop: n, err := io.ReadFull(r, buf.Buf) on part-size buffers; ErrUnexpectedEOF → last; EOF → done")
 	// FileTotalParts is read from upload.totalParts when the request is built
 	tri("totalPartsReadAtSend", strings.Contains(bigP, "FileTotalParts:p.upload.totalParts,"), false, "uploadBigFilePart: FileTotalParts: p.upload.totalParts")
 	f.TranslateFuncs("telegram/uploader", "checkPartSize", "checkPartSize", "computeParts", "computeParts", "computePartSize", "computePartSize")
